@@ -19,6 +19,24 @@ CHECKS = {
             "precisions, thread counts) compared after every solve with an independent float64 direct aperiodic "
             "convolution; reciprocity/no-image relations on impulses; bit-wise vector==3 scalar solves.",
             "3/C03", ""),
+    "C01": (True, "Hypothesis-generated simulator configurations/states vs independent float64 numpy reference of the documented operator sequence (differential oracle)",
+            "Generated (configuration, grid, state, dt) cases for all three simulator classes run through the public "
+            "constructor + time_step and compared after each of 1-2 steps with an independent reference implementation "
+            "with a stated norm-wise tolerance; exact time update and bit-wise zero forcing field.",
+            "3/C01", ""),
+    "C04": (True, "Hypothesis: grid-sum invariant on real simulators with compact fields + exact-rational face-flux equality and block-sum identities on captured stencil IR",
+            "Sum invariants of real time steps for generated compactly supported states with arbitrary velocity; "
+            "cell-level conservation form decided in exact rational arithmetic on the symbolic stencils for every "
+            "upwind branch pattern including ties.", "3/C04", ""),
+    "C05": (True, "Hypothesis: exact-rational evaluation of every captured stencil on drawn polynomials vs analytic derivatives; compiled wrappers on sampled polynomials",
+            "Randomized polynomial-identity testing (rational coefficients, spacings, prefactors, cells) of all 31 "
+            "differential stencils against an independent polynomial class, plus compiled public wrappers on "
+            "simulator-convention grids; finite inventory check that every differential stencil is covered.",
+            "3/C05", ""),
+    "C12": (True, "Hypothesis: exact-rational composition of captured stencils on 5^d blocks (identities as equalities of rationals) + compiled divergence norm on generated simulator states",
+            "Discrete identities (div curl = 0, div-free recovered velocity, wide Laplacian, update == library curl, "
+            "penalised == forcing of difference) tested as exact equalities on drawn rational blocks; compiled "
+            "counterpart through the public 3-D simulator.", "3/C12", ""),
 }
 
 NOT_BUILT_REASON = "check not built yet (work in progress in this session; will be claimed once its generated check is registered)"
